@@ -663,7 +663,10 @@ func (f *Fam) applyRevoke(op Op) string {
 				f.resync(func(x *MTok) bool { return x.Grant == g.ID && x != t && x.Name != t.Pair })
 			}
 		} else if t.Status == "live" {
-			// expired token: siblings are don't-care
+			// an expired token is an already-invalid token: success, and nothing changes
+			if !f.quiet && !nearExp && w.StateKey() != before {
+				f.violate("C08", "C08/expired-token-revocation-changed-state/"+t.Kind, "the owner revoked an already expired "+t.Kind+" and stored token state changed (the statement: already-invalid tokens are answered with success without changing anything)", "unchanged store", o)
+			}
 			f.resync(func(x *MTok) bool { return x.Grant == g.ID })
 		} else {
 			// already rotated / revoked / killed: success, nothing changes
